@@ -8,7 +8,7 @@ import numpy as np
 from .vlib import core, repo, tlc
 
 TENSOR_FAMILIES = ["bin", "scalar", "rterm", "matmul", "addmm", "red", "ext", "squeeze", "reshape", "move", "unfold",
-                   "concat", "stack", "getitem"]
+                   "concat", "stack", "getitem", "big"]
 
 _G = {}
 
